@@ -181,6 +181,9 @@ func (k *Keyer) Key(v ssa.Value) string {
 		return s
 	}
 	if k.visit[v] {
+		if ph, ok := v.(*ssa.Phi); ok {
+			return "phi@" + k.ids[ph]
+		}
 		return k.opaque(v)
 	}
 	k.visit[v] = true
@@ -264,7 +267,7 @@ func (k *Keyer) key(v ssa.Value) string {
 				same = false
 			}
 		}
-		if same && first != "" && !strings.Contains(first, "v@"+k.ids[x]) {
+		if same && first != "" && !strings.Contains(first, "phi@"+k.ids[x]) {
 			return first
 		}
 		return "phi@" + k.ids[x]
